@@ -68,10 +68,10 @@ def nrows(dfspec) -> int:
     return len(dfspec["cols"][0]["values"]) if dfspec["cols"] else 0
 
 
-def _headers(rtf, h):
+def _headers(rtf, h, forms=0):
     if h == "none":
         return []
-    return [rtf.RTFColumnHeader(**kw) for kw in h]
+    return [rtf.RTFColumnHeader(**(_share_lists(kw) if forms and forms % 3 == 0 else kw)) for kw in h]
 
 
 def write_figures(figspec, tmpdir):
@@ -88,6 +88,23 @@ def write_figures(figspec, tmpdir):
     return paths
 
 
+_SHARED_ARGS: dict = {}
+
+
+def _share_lists(kwargs):
+    """equal-valued list arguments of one document become the SAME list object (a caller who keeps one
+    `widths = [...]` or `just = [...]` variable and passes it to several components): a component that edits
+    an argument in place then changes what the next component receives"""
+    import json
+    out = {}
+    for k, v in kwargs.items():
+        if isinstance(v, list) and v and k not in ("page_by", "subline_by", "group_by"):
+            key = json.dumps(v, sort_keys=True, default=str)
+            v = _SHARED_ARGS.setdefault(key, v)
+        out[k] = v
+    return out
+
+
 def _alt_forms(kwargs, seed):
     """equivalent input forms of the public API: a grouping key given as a string instead of a list of
     one, text as a tuple instead of a list, int-valued floats ... (selected by the spec's "_forms" number)"""
@@ -96,6 +113,8 @@ def _alt_forms(kwargs, seed):
     import random
     rng = random.Random(seed)
     out = dict(kwargs)
+    if seed % 3 == 0:
+        return _share_lists(out)
     for k in ("page_by", "subline_by", "group_by"):
         v = out.get(k)
         if isinstance(v, list) and len(v) == 1 and rng.random() < 0.5:
@@ -134,16 +153,22 @@ def build_components(spec, tmpdir=None):
     import rtflite as rtf
     kw = {}
     forms = spec.get("_forms", 0)
+    _SHARED_ARGS.clear()
     kind = spec.get("kind", "table")
     if kind == "table":
         kw["df"] = mkdf(spec["df"])
         kw["rtf_body"] = rtf.RTFBody(**_alt_forms(spec.get("body", {}), forms))
         h = spec.get("colheader", "default")
         if h != "default":
-            kw["rtf_column_header"] = _headers(rtf, h)
+            kw["rtf_column_header"] = _headers(rtf, h, forms)
     elif kind == "multi":
         kw["df"] = [mkdf(s["df"]) for s in spec["sections"]]
         kw["rtf_body"] = [rtf.RTFBody(**s.get("body", {})) for s in spec["sections"]]
+        if spec.get("share_section_bodies"):
+            # rtf_body=[b, b]: ONE body object for all sections whose body values are equal to the first one's
+            first = spec["sections"][0].get("body", {})
+            kw["rtf_body"] = [kw["rtf_body"][0] if s.get("body", {}) == first else b
+                              for s, b in zip(spec["sections"], kw["rtf_body"])]
         mode = spec.get("multi_header", "nested")
         if mode == "nested":
             nested = []
